@@ -247,6 +247,9 @@ func c04Arms(c *Ctx, r *Report, a *Anchors) {
 			} else {
 				gs = blockGuards(blk)
 			}
+			if infeasibleGuards(gs) {
+				continue // `x.(I)` failing for an x made from a type that implements I: no such path
+			}
 			arm := "default"
 			for _, g := range gs {
 				if f, ok := assertFactOf(g); ok && f.holds && sameVal(stripIface(f.x), vP) {
@@ -325,7 +328,7 @@ func varBinder(c *Ctx, entry *ssa.Function) (*ssa.Function, *ssa.Call) {
 		for _, b := range fn.Blocks {
 			for _, in := range b.Instrs {
 				if mu, ok := in.(*ssa.MapUpdate); ok && isStrIfaceMap(mu.Map.Type()) {
-					if _, isMM := mu.Map.(*ssa.MakeMap); isMM {
+					if _, isMM := madeMaps(mu.Map); isMM {
 						if _, o, f, ok := loadOfField(mu.Key); ok && o == "VarDef" && f == "Name" {
 							return true
 						}
@@ -348,6 +351,52 @@ func varBinder(c *Ctx, entry *ssa.Function) (*ssa.Function, *ssa.Call) {
 		}
 	}
 	return entry, nil
+}
+
+// madeMaps: v is a map made in this function, or nil on the paths where it was not needed
+// (`var m map[..]..; if 0 < len(x) { m = make(..) }`): the MakeMap instructions behind it.
+func madeMaps(v ssa.Value) ([]*ssa.MakeMap, bool) {
+	leaves, _ := phiLeaves(v)
+	var out []*ssa.MakeMap
+	for _, lf := range leaves {
+		switch t := lf.val.(type) {
+		case *ssa.MakeMap:
+			out = append(out, t)
+		case *ssa.Const:
+			if t.Value != nil {
+				return nil, false
+			}
+		default:
+			return nil, false
+		}
+	}
+	return out, len(out) > 0
+}
+
+// mapUpdatesOf: the MapUpdate instructions that write the made map, directly or through the phis that
+// merge it with nil.
+func mapUpdatesOf(mm *ssa.MakeMap) []*ssa.MapUpdate {
+	var out []*ssa.MapUpdate
+	seen := map[ssa.Value]bool{}
+	var walk func(v ssa.Value)
+	walk = func(v ssa.Value) {
+		if seen[v] || v.Referrers() == nil {
+			return
+		}
+		seen[v] = true
+		for _, ref := range *v.Referrers() {
+			switch t := ref.(type) {
+			case *ssa.MapUpdate:
+				if t.Map == v {
+					out = append(out, t)
+				}
+			case *ssa.Phi:
+				walk(t)
+			}
+		}
+	}
+	walk(mm)
+	return out
 }
 
 func c04Vars(c *Ctx, r *Report, a *Anchors) {
@@ -393,7 +442,7 @@ func c04Vars(c *Ctx, r *Report, a *Anchors) {
 			if !ok || !isStrIfaceMap(mu.Map.Type()) {
 				continue
 			}
-			if _, isMM := mu.Map.(*ssa.MakeMap); !isMM {
+			if _, isMM := madeMaps(mu.Map); !isMM {
 				continue
 			}
 			// key must be a VarDef name
